@@ -335,11 +335,7 @@ REQ = "From Verif Require Import Base.I64 Base.Text C19.Model.\nOpen Scope Z_sco
 
 
 def load_findings(chk):
-    # TEMPORARY fallback until the lead merges build/kf-C19.json into known_findings.json
-    if not chk.findings:
-        p = os.path.join(vlib.VERIF, "build", "kf-C19.json")
-        if os.path.exists(p):
-            chk.findings = json.load(open(p))
+    return None
 
 
 def run(chk):
